@@ -46,6 +46,10 @@ func violationCases(vs []*Violation) []replayCase {
 // replayNative compiles the harness package with the ordinary Go compiler
 // (go test -tags verif -overlay ...) and runs the given cases against the real build.
 func replayNative(l *loaded, repoDir, hdir string, cases []replayCase, race bool) *nativeRun {
+	return replayNativeT(l, repoDir, hdir, cases, race, "300s")
+}
+
+func replayNativeT(l *loaded, repoDir, hdir string, cases []replayCase, race bool, timeout string) *nativeRun {
 	t0 := time.Now()
 	nr := &nativeRun{}
 	if len(cases) == 0 {
@@ -77,7 +81,7 @@ func replayNative(l *loaded, repoDir, hdir string, cases []replayCase, race bool
 	caseFile := filepath.Join(tmp, "cases.json")
 	outFile := filepath.Join(tmp, "out.json")
 	os.WriteFile(caseFile, mustJSON(cases), 0o644)
-	args := []string{"test", "-tags", "verif", "-vet=off", "-count=1", "-timeout", "300s", "-overlay", ovFile, "-run", "^Test_verif_replay$"}
+	args := []string{"test", "-tags", "verif", "-vet=off", "-count=1", "-timeout", timeout, "-overlay", ovFile, "-run", "^Test_verif_replay$"}
 	if race {
 		args = append(args, "-race")
 	}
